@@ -38,6 +38,7 @@ THEOREMS = [
     ("Kopf.Props.C01", "Kopf.C01.inflight_spec"),
     ("Kopf.Props.C01", "Kopf.C01.serial"),
     ("Kopf.Props.C01", "Kopf.C01.serial_step"),
+    ("Kopf.Props.C01", "Kopf.C01.serial_step_timeout"),
     ("Kopf.Props.C01", "Kopf.C01.quiescent_complete"),
     ("Kopf.Props.C01", "Kopf.C01.limit_respected"),
     ("Kopf.Props.C01", "Kopf.C01.independent_take"),
@@ -53,16 +54,14 @@ RULE = ("scripted watch streams of 1-4 objects (with/without uid), 2-12 events, 
         "consistency scripted, processor durations incl. 0 and idle±1, raising processors, watcher cancellation; arrivals "
         "placed EXACTLY on last_activity+idle_timeout and ±1 tick (adaptive: read off the worker's own wait_for), each "
         "stream run under both orders of same-instant timers (fifo/lifo; rng in thorough). A case is distinct by its "
-        "label-name/key sequence; non-trivial when it contains a retry (timeout with a filled queue), a same-instant "
+        "label-name/key sequence; non-trivial when it contains a ttake (timeout with a filled queue: the found event is taken in the same segment), a same-instant "
         "retire+re-insert, an arrival during busy, a limit-blocked pending worker, a kill, a failure or a drained EOS.")
 TRUSTED = ["CPython asyncio (Queue, wait_for, timeouts, Condition, Task cancellation) — exercised, not modelled",
            "harness/props/sim_c01.py hook placement: each label is logged inside the atomic segment it names",
            "the actual order CPython gives to same-instant timers is not predicted: both orders are executed"]
 ASSUMPTIONS = ["the Kubernetes API never reorders events of one object (the scripted stream is the delivered order)",
                "processors do not swallow cancellation",
-               "settings.queueing.idle_timeout > 0 (idle_timeout <= 0 is finding F1: the worker livelocks)"]
-
-F1_SIG = {"site": "queueing.worker", "shape": "idle_timeout<=0: wait_for(backlog.get(), 0) never returns a queued event"}
+               "idle_timeout <= 0 is covered since /repo d07cc0b (finding F1, fixed): generated with idle_timeout 0 and -1"]
 
 POLICIES_Q = ("fifo", "lifo")
 POLICIES_T = ("fifo", "lifo", "rng")
@@ -233,7 +232,7 @@ KINDS = ["deadline", "deadline", "deadline", "burst", "limit", "limit", "shutdow
 
 def gen_scenario(rng: random.Random, force_limit: Any = "any") -> dict:
     kind = rng.choice(KINDS)
-    idle = rng.choice([1, 2, 3, 8, 32, 64, 64, 256, 1024])
+    idle = rng.choice([0, 0, -1, 1, 1, 2, 3, 8, 32, 64, 64, 256, 1024])
     n_obj = rng.choice([1, 1, 2, 2, 3, 4]) if kind not in ("limit",) else rng.choice([2, 3, 4])
     objects: list[dict] = []
     for i in range(n_obj):
@@ -308,13 +307,13 @@ def gen_scenario(rng: random.Random, force_limit: Any = "any") -> dict:
 # =================================================================================================
 # Running scenarios, abstraction, trace requests
 # =================================================================================================
-NONTRIVIAL = {"retry", "kill", "fail", "eos"}
+NONTRIVIAL = {"ttake", "kill", "fail", "eos"}
 
 
 def abstract(log: dict) -> tuple[str, bool, dict[str, bool]]:
     labs = log["labels"]
     names = []
-    flags = {"retry": False, "retire+reinsert same instant": False, "arrive while busy": False,
+    flags = {"ttake": False, "retire+reinsert same instant": False, "arrive while busy": False,
              "pending blocked by limit": False, "kill": False, "fail": False, "eos drained": False,
              "late arrival (no stream)": False}
     busy: set = set()
@@ -322,9 +321,9 @@ def abstract(log: dict) -> tuple[str, bool, dict[str, bool]]:
     for lab, sn, t in labs:
         nm = lab[0]
         names.append(nm + (str(lab[1]) if len(lab) > 1 else ""))
-        if nm in ("retry", "kill", "fail"):
+        if nm in ("ttake", "kill", "fail"):
             flags[nm] = True
-        if nm == "take":
+        if nm in ("take", "ttake"):
             busy.add(lab[1])
         if nm in ("finish", "fail", "kill"):
             busy.discard(lab[1])
@@ -358,9 +357,8 @@ def evaluate(scn: dict, policy: str) -> dict:
     bad = oracle(scn, log)
     key, nontrivial, flags = abstract(log)
     structural = list(log["anomalies"])
-    if any(l[0][0] in ("weird", "insert-without-event") for l in log["labels"]):
-        structural.append("a worker left its loop in a way the model has no label for"
-                          if any(l[0][0] == "weird" for l in log["labels"]) else "insert without event")
+    if any(l[0][0] == "weird" for l in log["labels"]):
+        structural.append("a worker left its loop in a way the model has no label for")
     observed_processed: dict[int, list[int]] = {}
     for c in log["calls"]:
         if c["end"] in ("ok", "raised") and c["k"] is not None:
@@ -473,29 +471,11 @@ def load_corpus() -> list[tuple[str, dict]]:
     return [(p.name, json.loads(p.read_text())) for p in sorted(d.glob("*.json"))]
 
 
-def run_f1_witness(ctx: Ctx, name: str, data: dict) -> None:
-    """Finding F1: idle_timeout <= 0 makes worker() spin in wait_for(..., 0) forever."""
-    from .sim_c01 import simulate
-    log = simulate(data["scenario"], "fifo", max_steps=3000)
-    ctx.count("source", "finding-witness")
-    ctx.case(key=f"F1:{log['outcome']}", nontrivial=True)
-    if log["outcome"] == "stall" and not log["calls"]:
-        ctx.oracle_fail("idle_timeout=0: the delivered event is never processed, the worker re-arms wait_for(…, 0) forever",
-                        {"scenario": data["scenario"], "policy": "fifo", "corpus": name}, F1_SIG)
-    else:
-        bad = oracle(data["scenario"], log)
-        for what, sig in bad:
-            ctx.oracle_fail(what, {"scenario": data["scenario"], "policy": "fifo", "corpus": name}, sig)
-
-
 def run(ctx: Ctx) -> None:
     policies = POLICIES_T if ctx.tier == "thorough" else POLICIES_Q
     # ---- corpus first -----------------------------------------------------------------------------
     corpus_results = []
     for name, data in load_corpus():
-        if data.get("expect") == "F1":
-            run_f1_witness(ctx, name, data)
-            continue
         for pol in data.get("policies", ["fifo", "lifo"]):
             res = evaluate(data["scenario"], pol)
             res["scn"] = dict(res["scn"], kind="corpus:" + name)
@@ -592,9 +572,6 @@ def replay(ctx: Ctx, data: dict) -> None:
     pols = [rp["policy"]] if rp.get("policy") else list(POLICIES_T)
     results = []
     for pol in pols:
-        if scn["settings"]["idle_timeout"] <= 0:
-            run_f1_witness(ctx, "replay", {"scenario": scn})
-            continue
         res = evaluate(scn, pol)
         results.append(res)
         for what, sig in res["oracle"]:
